@@ -6,6 +6,7 @@ Gen/WriteOrder.lean
                (+ `blank` where its `terminate` flag is True), then the statements that follow the loop
                (`modifiers` for the loop over Cells._run_children_format_for_mcnp, `blank` for fh.write("\\n")).
   openGuards : exception classes raised under `if "w" in mode` of MCNP_InputFile.open, in source order.
+  openEncoding : default text encoding of the handle (a character outside it makes fh.write raise).
   commits    : the calls of the os module made by MCNP_InputFile.__exit__ / helper methods (e.g. replace, remove).
 
 If the source no longer has the recognised shape the table is emitted as far as it could be read and
@@ -43,27 +44,41 @@ def _mentions(node, name):
     return any(isinstance(n, ast.Attribute) and n.attr == name for n in ast.walk(node))
 
 
+def _has_write(node):
+    return any(
+        isinstance(n, ast.Call) and isinstance(n.func, ast.Attribute) and n.func.attr == "write" for n in ast.walk(node)
+    )
+
+
 def write_sequence(fn):
-    """(sequence, recognised)"""
+    """(sequence, recognised).  Statements of the `with` body without an effect on the file (function
+    definitions, the warning bookkeeping) are skipped; a statement that writes and is not understood
+    clears `recognised`."""
     seq, ok = [], True
     withs = [n for n in ast.walk(fn) if isinstance(n, ast.With)]
     if not withs:
         return seq, False
     body = withs[0].body
     loop_seen = False
+    modifiers_pending = False  # formatted into a variable, not written yet
     for stmt in body:
-        tuples = []
-        if not loop_seen:
-            for n in ast.walk(stmt):
-                if isinstance(n, ast.Tuple) and len(n.elts) == 2 and isinstance(n.elts[1], ast.Constant) and isinstance(n.elts[1].value, bool):
-                    tuples.append(n)
-        if isinstance(stmt, ast.For) and _mentions(stmt, "format_for_mcnp_input") and not _mentions(stmt.iter, "_run_children_format_for_mcnp"):
-            loop_seen = True
-            # the `if terminate: fh.write("\n")` must be inside the loop over objects_list
-            if not any(_is_blank_write(s) for n in ast.walk(stmt) if isinstance(n, ast.If) for s in n.body):
-                ok = False
+        if isinstance(stmt, ast.FunctionDef):
             continue
         if not loop_seen:
+            if isinstance(stmt, ast.For) and _mentions(stmt, "format_for_mcnp_input"):
+                loop_seen = True
+                # `if terminate: fh.write("\n")` must be inside the loop over objects_list
+                if not any(_is_blank_write(s) for n in ast.walk(stmt) if isinstance(n, ast.If) for s in n.body):
+                    ok = False
+                continue
+            tuples = [
+                n
+                for n in ast.walk(stmt)
+                if isinstance(n, ast.Tuple)
+                and len(n.elts) == 2
+                and isinstance(n.elts[1], ast.Constant)
+                and isinstance(n.elts[1].value, bool)
+            ]
             for t in sorted(tuples, key=lambda n: (n.lineno, n.col_offset)):
                 a = _attr_of(t.elts[0])
                 if a not in SEGS:
@@ -72,14 +87,24 @@ def write_sequence(fn):
                 seq.append(SEGS[a])
                 if t.elts[1].value:
                     seq.append("blank")
+            if _has_write(stmt):
+                ok = False
             continue
-        if isinstance(stmt, ast.For) and _mentions(stmt.iter, "_run_children_format_for_mcnp"):
-            seq.append("modifiers")
+        if _mentions(stmt, "_run_children_format_for_mcnp"):
+            if isinstance(stmt, ast.For) and _has_write(stmt):
+                seq.append("modifiers")
+            elif isinstance(stmt, ast.Assign):
+                modifiers_pending = True
+            else:
+                ok = False
         elif _is_blank_write(stmt):
             seq.append("blank")
-        else:
+        elif isinstance(stmt, ast.For) and _has_write(stmt) and modifiers_pending:
+            seq.append("modifiers")
+            modifiers_pending = False
+        elif _has_write(stmt):
             ok = False
-    if not loop_seen:
+    if not loop_seen or modifiers_pending:
         ok = False
     return seq, ok
 
@@ -126,5 +151,8 @@ def generate(write):
     body += "def openGuards : List String := [" + ", ".join('"' + g + '"' for g in guards) + "]\n\n"
     body += "/-- input_file.py:MCNP_InputFile.__exit__ and _discard_temporary — calls into the os module, in source order -/\n"
     body += "def exitOsCalls : List String := [" + ", ".join('"' + g + '"' for g in commits) + "]\n\n"
+    enc = inspect.signature(input_file.MCNP_InputFile.open).parameters["encoding"].default
+    body += "/-- input_file.py:MCNP_InputFile.open — default of the `encoding` parameter (write_to_file does not pass one) -/\n"
+    body += f"def openEncoding : String := \"{enc}\"\n\n"
     body += "end MontePyVerif.Gen.WriteOrder\n"
     write("WriteOrder.lean", body)
